@@ -13,8 +13,8 @@ from ..runner import Outcome
 
 ID = "C02"
 VARIANTS = {"quick": ("asan",), "thorough": ("asan", "fuzz")}
-BUDGET = {"quick": dict(examples=48000, seconds=55),
-          "thorough": dict(examples=800000, seconds=420)}
+BUDGET = {"quick": dict(examples=150000, seconds=55),
+          "thorough": dict(examples=4000000, seconds=420)}
 RULE = ("Hypothesis-generated op histories (enq auto/caller-key, deq, rem, reprio, pattern find/count/"
         "cancel, clear, reset; bursts crossing capacity doublings) on default/guard/holders/pq hashheaps; "
         "every op is followed by a full cross-check against an array model. Non-trivial = at least one "
